@@ -204,6 +204,9 @@ func leanTypeM(t types.Type) (string, error) {
 	if lt, ok := extLeanType(t); ok { // ext_k17k20.go
 		return lt, nil
 	}
+	if lt, ok := k19Type(t); ok { // ext_k19.go: float64 / []float64 of a number-polymorphic kernel (kind funcn)
+		return lt, nil
+	}
 	switch u := t.Underlying().(type) {
 	case *types.Basic:
 		if u.Info()&types.IsString != 0 {
@@ -376,7 +379,7 @@ func (fc *fnCtx) lexpr(ex ast.Expr) (string, error) {
 		return fc.lexpr(x.X)
 	case *ast.Ident:
 		if _, ok := fc.locals[x.Name]; ok {
-			if fc.m.ltype[x.Name] != "List Int" {
+			if !isListLT(fc.m.ltype[x.Name]) {
 				return "", fmt.Errorf("%s is not a slice/string", x.Name)
 			}
 			return fc.name(x.Name), nil
@@ -1246,7 +1249,7 @@ func (fc *fnCtx) mblock(stmts []ast.Stmt, lvl int) (string, error) {
 			}
 			var e string
 			var err error
-			if id, ok := r.(*ast.Ident); ok && fc.m.ltype[id.Name] == "List Int" {
+			if id, ok := r.(*ast.Ident); ok && isListLT(fc.m.ltype[id.Name]) {
 				e, err = fc.lexpr(r)
 			} else if isList {
 				e, err = fc.lexprOrMake(r)
@@ -1596,7 +1599,7 @@ func (fc *fnCtx) ctlJoinable(x *ast.IfStmt, rest []ast.Stmt) ([]string, bool) {
 	for _, n := range fc.m.declOrder {
 		if assigned[n] {
 			if _, vis := fc.locals[n]; vis {
-				if fc.isParam(n) && fc.m.ltype[n] == "List Int" && !fc.isOutVar(n) {
+				if fc.isParam(n) && isListLT(fc.m.ltype[n]) && !fc.isOutVar(n) {
 					return nil, false
 				}
 				vars = append(vars, n)
@@ -1920,7 +1923,7 @@ func (fc *fnCtx) massign(x *ast.AssignStmt, rest []ast.Stmt, lvl int) (string, e
 				}
 			}
 			var val string
-			if lt == "List Int" {
+			if isListLT(lt) {
 				if x.Tok != token.DEFINE && x.Tok != token.ASSIGN {
 					return "", fmt.Errorf("operator assignment on a slice")
 				}
@@ -1949,7 +1952,7 @@ func (fc *fnCtx) massign(x *ast.AssignStmt, rest []ast.Stmt, lvl int) (string, e
 			if !ok {
 				return "", fmt.Errorf("assignment to non-local")
 			}
-			if _, ok := fc.locals[key]; !ok || fc.m.ltype[key] != "List Int" {
+			if _, ok := fc.locals[key]; !ok || !isListLT(fc.m.ltype[key]) {
 				return "", fmt.Errorf("element assignment to non-local slice %s", key)
 			}
 			if fc.isParam(key) && !fc.isOutVar(key) {
@@ -1964,13 +1967,13 @@ func (fc *fnCtx) massign(x *ast.AssignStmt, rest []ast.Stmt, lvl int) (string, e
 				return "", err
 			}
 			if x.Tok != token.ASSIGN {
-				cur := fc.bind(fmt.Sprintf("Gzx.GoM.idx %s %s", fc.name(key), i))
+				cur := fc.bind(fmt.Sprintf("%s %s %s", k19Idx(fc.m.ltype[key]), fc.name(key), i))
 				val, err = fc.opAssign(x.Tok, cur, val, fc.p.TypesInfo.TypeOf(lx), r)
 				if err != nil {
 					return "", err
 				}
 			}
-			tg = append(tg, tgt{key: key, ix: i, val: val, lt: "List Int"})
+			tg = append(tg, tgt{key: key, ix: i, val: val, lt: fc.m.ltype[key]})
 		default:
 			return "", fmt.Errorf("assignment to non-local")
 		}
@@ -1982,7 +1985,7 @@ func (fc *fnCtx) massign(x *ast.AssignStmt, rest []ast.Stmt, lvl int) (string, e
 		}
 		val := t.val
 		if t.ix != "" {
-			val = fc.bind(fmt.Sprintf("Gzx.GoM.setIdx %s %s %s", fc.name(t.key), t.ix, t.val))
+			val = fc.bind(fmt.Sprintf("%s %s %s %s", k19SetIdx(t.lt), fc.name(t.key), t.ix, t.val))
 			sb.WriteString(fc.flush(lvl))
 		}
 		fc.declare(t.key, t.lt)
@@ -2371,7 +2374,7 @@ func (fc *fnCtx) loopCore(body *ast.BlockStmt, extra []ast.Node, ivar string, he
 		}
 	}
 	for _, n := range state {
-		if fc.isParam(n) && fc.m.ltype[n] == "List Int" && !fc.isOutVar(n) {
+		if fc.isParam(n) && isListLT(fc.m.ltype[n]) && !fc.isOutVar(n) {
 			return "", fmt.Errorf("loop body writes elements of parameter %s", n)
 		}
 	}
@@ -2716,7 +2719,7 @@ func (fc *fnCtx) mwhile(cond ast.Expr, body []ast.Stmt, rest []ast.Stmt, lvl int
 	stateSet := map[string]bool{}
 	var stypes []string
 	for _, n := range state {
-		if fc.isParam(n) && fc.m.ltype[n] == "List Int" && !fc.isOutVar(n) {
+		if fc.isParam(n) && isListLT(fc.m.ltype[n]) && !fc.isOutVar(n) {
 			return "", fmt.Errorf("loop body writes elements of parameter %s", n)
 		}
 		stateSet[n] = true
@@ -3047,9 +3050,9 @@ func genFuncM(p *packages.Package, e entry) (string, error) {
 		}
 	}
 	for _, n := range fc.paramNames {
-		if assigned0[n] && fc.m.ltype[n] == "List Int" {
+		if assigned0[n] && isListLT(fc.m.ltype[n]) {
 			fc.m.outVars = append(fc.m.outVars, n)
-			outTypes = append(outTypes, "List Int")
+			outTypes = append(outTypes, fc.m.ltype[n])
 		}
 	}
 	if len(fc.m.outVars) > 0 {
